@@ -127,6 +127,8 @@ def handler_coverage_corpus():
     add("parallel-end", chain(("P", Parallel([br("A", "f1"), br("B", "f2")]))), workers=w1)
     add("parallel-pass-branches", chain(("P", Parallel([chain(("A", Pass(Result=1))), chain(("B", Pass(Result=2)))])), Z))
     add("parallel-fail-branch", chain(("P", Parallel([chain(("A", Fail())), chain(("B", Pass(Result=2)))])), Z))
+    add("parallel-empty-next", chain(("P", Parallel([], ResultPath="$.r")), Z), input={"k": 1})
+    add("parallel-empty-end", chain(("P", Parallel([], ResultSelector={"n.$": "States.ArrayLength($)"}))))
     add("parallel-badparams", chain(("P", Parallel([br("A", "f1")], Parameters={"x.$": "$.missing"})), Z), workers=w1)
     add("parallel-resultpath-fail", chain(("P", Parallel([chain(("A", Pass(Result=1)))], ResultPath="$.a.b")), Z), input={"a": 5})
     add("parallel-task-error", chain(("P", Parallel([br("A", "f1"), br("B", "f2")])), Z), workers={"f1": {"*": ERR()}, "f2": {"*": OK(2)}})
@@ -215,6 +217,10 @@ def seq_family(tier="quick"):
     d = chain(("T", Task("f1", Catch=CATCH_ALL)), Z); d["TimeoutSeconds"] = 4
     out.append(scenario("seq-exec-timeout-in-task", d, workers={"f1": {"*": NONE}}, family="seq-exec-timeout-in-task"))
     out.append(scenario("seq-exec-timeout-express", d, workers={"f1": {"*": NONE}}, family="seq-exec-timeout-express", typ="EXPRESS"))
+    # a returned (unroutable) request is handled while another execution's Task event is outstanding on the same channel
+    out.append(multi("seq-unroutable-beside-blocked", {"m": {"definition": dt}, "n": {"definition": chain(("U", Task("nosuchfn")), Z)}},
+                     [{"machine": "m", "name": "e1", "input": {"k": 1}}, {"machine": "n", "name": "e2", "input": {"k": 2}}],
+                     workers={"f1": {"*": [["delay", ["ok", {"r": 1}]]]}}))
     # a raw start event as an external client would publish it (no Execution fields)
     sc = scenario("seq-raw-start", dt, workers={"f1": {"*": OK(1)}}, family="seq-raw-start")
     sc["starts"] = []
@@ -269,6 +275,7 @@ def fanout_ok_family(tier="quick"):
     add("par-2x1-end", chain(("P", Parallel([_branch("A", 1), _branch("B", 1)]))))
     add("par-2x2", chain(("P", Parallel([_branch("A", 2), _branch("B", 2)])), Z))
     add("par-3x1", chain(("P", Parallel([_branch("A", 1), _branch("B", 1), _branch("C", 1)], ResultPath="$.r")), Z), inp={"k": 1})
+    add("par-empty", chain(("P", Parallel([], ResultPath="$.r")), Z), inp={"k": 1})
     add("par-mixed", chain(("P", Parallel([_branch("A", 1), _branch("B", 1, "wait"), _branch("C", 1, "pass")],
                                           ResultSelector={"a.$": "$[0]", "c.$": "$[2]"})), Z))
     it = chain(("I", Task("fi")))
@@ -427,6 +434,8 @@ def child_family(tier="quick"):
     addtok("token-never", [], allowed=[["FAILED", "States.Timeout"]])
     addtok("token-late", [dict(ok, after_quiet=True, tag="late")], allowed=[["FAILED", "States.Timeout"]])
     addtok("token-rpc-reply-before-callback", [ok], workers={"ft": {"*": [["delay", ["ok", {"ignored": True}]]]}}, allowed=A42)
+    for nm, val in (("string", "accepted"), ("number", 7), ("zero", 0), ("array", [1]), ("null", None), ("false", False)):
+        addtok("token-rpc-%s-reply-before-callback" % nm, [ok], workers={"ft": {"*": [["delay", ["ok", val]]]}}, allowed=A42)
     addtok("token-rpc-error-reply", [ok], workers={"ft": {"*": [["delay", ["err", "E.rpc", "worker failed"]]]}}, allowed=A42 + [["FAILED", "E.rpc"]])
     addtok("token-caught", [fail], state=dict(tok, Catch=[{"ErrorEquals": ["E.cb"], "Next": "Z", "ResultPath": "$.err"}]), allowed=[["SUCCEEDED", None]])
     return out
